@@ -64,6 +64,11 @@ def unit_faults(ctx):
                         continue
                     info = res["info"]
                     ctx.digest(res["ret"], info["nalloc"], info["live"])
+                    if info.get("overruns"):
+                        viol("%s:%s:heap-overrun-of-own-block" % (fn, "alloc-fail" if info["failed"] else "no-fault"),
+                             "%s wrote past the end of a block it had allocated (%d octets requested)%s" %
+                             (name, info.get("overrun_block_size", 0), " after allocation #%d failed" % k if info["failed"] else ""),
+                             dict(desc, fail_at=k, info=info))
                     if not info["failed"]:
                         # the call completed without reaching allocation #k: enumeration finished
                         depth[name] = max(depth.get(name, 0), k - 1)
